@@ -290,6 +290,7 @@ func (m *Msg) Pack(b []byte, compression bool, size int) (int, error) {
 	for _, q := range m.Questions {
 		if size > 0 && off+q.Len() > size {
 			msgHdr.Truncated = true
+			h.questions--
 			continue
 		}
 		var err error
@@ -301,6 +302,7 @@ func (m *Msg) Pack(b []byte, compression bool, size int) (int, error) {
 	for _, r := range m.Answers {
 		if size > 0 && off+r.packLen() > size {
 			msgHdr.Truncated = true
+			h.answers--
 			continue
 		}
 		var err error
@@ -311,6 +313,7 @@ func (m *Msg) Pack(b []byte, compression bool, size int) (int, error) {
 	for _, r := range m.Authorities {
 		if size > 0 && off+r.packLen() > size {
 			msgHdr.Truncated = true
+			h.authorities--
 			continue
 		}
 		var err error
@@ -321,6 +324,7 @@ func (m *Msg) Pack(b []byte, compression bool, size int) (int, error) {
 	for _, r := range m.Additionals {
 		if size > 0 && off+r.packLen() > size {
 			msgHdr.Truncated = true
+			h.additionals--
 			continue
 		}
 		var err error
@@ -337,6 +341,9 @@ func (m *Msg) Pack(b []byte, compression bool, size int) (int, error) {
 		}
 	}
 
+	// The header may have been changed (truncated), and the section
+	// counts must only count records that were actually packed.
+	_, h.bits = msgHdr.Pack()
 	h.pack(b[:12])
 	return off, nil
 }
